@@ -212,7 +212,7 @@ class FnTaint:
             return
         # unwrap `.is_ok()` style adaptors
         inner = call
-        while inner[0] == 'call' and re.search(r'Result::<.*>::is_ok$|Option::<.*>::is_some$', inner[1]) and inner[2] and inner[2][0][0] in ('call', 'ref'):
+        while inner[0] == 'call' and re.search(r'Result::<.*>::(is_ok|ok)$|Option::<.*>::(is_some|ok_or|ok_or_else)$', inner[1]) and inner[2] and inner[2][0][0] in ('call', 'ref'):
             x = inner[2][0]
             if x[0] == 'ref':
                 x = x[1]
